@@ -244,12 +244,41 @@ def explore(ctx):
         failures.append({"class": cls, "witness": True, "case": case,
                          "text": f"{part}: {descr} panics at {at}"})
 
+    # an entry point must neither unwind nor abort nor hang: a dead or silent harness process is attributed to its op
+    def died_at(r):
+        return f"PROCESS {r['r'].upper()} (rc={r.get('rc')}) :: {(r.get('stderr') or '')[-200:]}"
+
+    def xexec(ops, nproc=16):
+        res = C.run_exec_parallel(ops, nproc=nproc, robust=True)
+        for k, r in enumerate(res):
+            if r.get("r") in ("abort", "timeout"):
+                bump("process-" + r["r"])
+                res[k] = {"r": "panic", "at": died_at(r), "results": []}
+        return res
+
+    def exec_chunk(op):
+        r = C.run_exec_robust([op], per_op_timeout=1800)[0]
+        if r.get("r") not in ("abort", "timeout"):
+            return r
+        bump("process-" + r["r"])
+        results, base = [], "ok"
+        for i in op["sel"]["list"]:            # narrow the chunk down to the mutation that kills the process
+            r1 = C.run_exec_robust([dict(op, sel={"list": [i]})], per_op_timeout=600)[0]
+            if r1.get("r") in ("abort", "timeout"):
+                results.append({"i": i, "desc": f"died:{r1['r']}:mutation #{i}", "decode": "unknown", "at": died_at(r1)})
+            elif r1.get("r") == "ok" and "results" in r1:
+                results += r1["results"]
+                base = r1.get("base", base)
+        if not any(x.get("at") for x in results):   # dies only in the company of the others: report the chunk
+            results.append({"i": -1, "desc": f"died:{r['r']}:chunk {op['sel']['list'][:5]}..", "decode": "unknown", "at": died_at(r)})
+        return {"r": "ok", "results": results, "base": base}
+
     # ------------------------------------------------------------------ replay of a recorded violation
     if ctx.get("replay"):
         rec = json.load(open(ctx["replay"]))
         op = rec.get("case", {}).get("op")
         if op:
-            r = C.run_exec([op])[0]
+            r = C.run_exec_robust([op])[0]
             print("replay result:", json.dumps(r)[:2000])
         return {"evaluations": 1, "failures": [], "rule": "replay", "samples": [], "histograms": {}}
 
@@ -274,7 +303,7 @@ def explore(ctx):
     for s in sorted(scal):
         cases.append(("decode_str", "%064x" % s, {"op": "d_decode_str", "s": "%064x" % s}, f"KDecodeStr {s}", lambda r: r["b"]))
         cases.append(("decode_bytes", "%064x" % s, {"op": "d_decode_bytes", "s": "%064x" % s}, f"KDecodeBytes {s}", lambda r: r["b"]))
-    implA = C.run_exec_parallel([c[2] for c in cases])
+    implA = xexec([c[2] for c in cases])
     modelA = C.run_model("C20", HEADER18, [c[3] for c in cases], shard_size=1500, tag="data")
     for (kind, descr, op, term, payload), r, m in zip(cases, implA, modelA):
         evaluations += 1
@@ -336,7 +365,7 @@ def explore(ctx):
     order = sorted(range(len(ops)), key=lambda i: (0 if owner[i].endswith(":full") else 1 if owner[i].startswith("create") else 2))
     resB = [None] * len(ops)
     with cf.ThreadPoolExecutor(max_workers=16) as ex:
-        for i, r in zip(order, ex.map(lambda i: C.run_exec([ops[i]], timeout=7200)[0], order)):
+        for i, r in zip(order, ex.map(lambda i: exec_chunk(ops[i]), order)):
             resB[i] = r
     vterms, vmeta = [], []
     cterms, cmeta = [], []
@@ -427,8 +456,11 @@ def explore(ctx):
                     off = rng.randrange(stride)
                     opsC.append(dict(wl, op="f_total", target="bytes", obj=obj, fmt=fmt, sel={"stride": stride * 4, "offset": off * 4 + k}))
                     ownC.append(f"bytes:{fmt}:{suite}:{obj}")
-    resC = C.run_exec_parallel(opsC, nproc=16, timeout=7200)
+    resC = xexec(opsC, nproc=16)
     for part, op, r in zip(ownC, opsC, resC):
+        if r.get("r") == "panic" and str(r.get("at", "")).startswith("PROCESS"):
+            panic(part, f"byte mutation stride={op['sel']}", r["at"], op)
+            continue
         if r.get("r") != "ok" or "results" not in r:
             if r.get("encode") == "err" or r.get("create") == "err":
                 bump("C:skipped")
@@ -482,7 +514,7 @@ def explore(ctx):
             for mb in muts:
                 opsD.append({"op": "d_codec_dec", "suite": suite, "codec": name, "b": mb.hex()})
                 ownD.append(f"codec:{suite}:{name}")
-    resD = C.run_exec_parallel(opsD, nproc=16)
+    resD = xexec(opsD, nproc=16)
     for part, op, r in zip(ownD, opsD, resD):
         evaluations += 1
         bump("D:" + part + ":" + r["r"])
